@@ -38,7 +38,7 @@ type tierPlan struct {
 }
 
 func planFor(tier string) tierPlan {
-	p := tierPlan{plainBatches: 144, plainRuns: 20, raceBatches: 144, raceRuns: 12, minimiseBudget: 90 * time.Second, batchTimeout: 10 * time.Minute}
+	p := tierPlan{plainBatches: 192, plainRuns: 20, raceBatches: 192, raceRuns: 12, minimiseBudget: 90 * time.Second, batchTimeout: 10 * time.Minute}
 	if tier == "thorough" {
 		p = tierPlan{plainBatches: 4800, plainRuns: 20, raceBatches: 4800, raceRuns: 12, minimiseBudget: 5 * time.Minute, batchTimeout: 20 * time.Minute}
 	}
